@@ -43,8 +43,11 @@ int write_amiga(Memory *memory, FILE *out)
   write_uint32(out, HUNK_CODE);   // hunk_code
   write_uint32(out, length / 4);  // length of code
 
-  for (n = memory->low_address; n <= memory->high_address; n++)
+  // 64 bit counter: high_address can be 0xffffffff and a 32 bit one would wrap.
+  for (uint64_t a = memory->low_address; a <= memory->high_address; a++)
   {
+    n = (uint32_t)a;
+
     putc(memory->read8(n), out);
   }
 
